@@ -77,8 +77,14 @@ def _join(base, op):
     return base + "/" + op
 
 
-INTERPS = [dict(lex_incdir=a, wd_srcdir=b, search_srcdir=c)
-           for a in (False, True) for b in (True, False) for c in (False, True)]
+INTERPS = [dict(lex_incdir=a, wd_srcdir=b, search_srcdir=c, lenient_dotdot=d)
+           for d in (False, True) for a in (False, True) for b in (True, False) for c in (False, True)]
+
+
+def _interps_for(run):
+    if run.get("srcdir"):
+        return INTERPS
+    return [i for i in INTERPS if i["wd_srcdir"] and not i["search_srcdir"]]
 
 
 class Walk:
@@ -87,18 +93,21 @@ class Walk:
 
 def walk(case, run, root, interp):
     """Expected contributions of one run under one interpretation of what the statement leaves open:
-       lex_incdir     the including file's directory is the directory part of the path it was found by
-                      (True) or of its symlink-resolved path (False)
-       wd_srcdir      with -srcdir, 'the working directory' is the -srcdir directory (True) or the
-                      directory the tool was started in (False)
-       search_srcdir  with -srcdir, relative -I/-S operands are relative to -srcdir (True) or to the
-                      directory the tool was started in (False)
+       lex_incdir      the including file's directory is the directory part of the path it was found by
+                       (True) or of its symlink-resolved path (False)
+       wd_srcdir       with -srcdir, 'the working directory' is the -srcdir directory (True) or the
+                       directory the tool was started in (False)
+       search_srcdir   with -srcdir, relative -I/-S operands are relative to -srcdir (True) or to the
+                       directory the tool was started in (False)
+       lenient_dotdot  a candidate path that denotes nothing for the kernel (a component before a '..'
+                       is missing) but denotes a file once 'x/..' pairs are removed lexically counts as
+                       found (True) or not (False).  A path the kernel *does* resolve always denotes
+                       what the kernel says.
     """
     units_by_phys = {}
     for u in case["units"]:
         units_by_phys[os.path.realpath(os.path.join(root, u["path"]))] = u
-    inv = os.path.join(root, run["cwd"]) if run["cwd"] != "." else root
-    inv = os.path.normpath(inv)
+    inv = os.path.normpath(os.path.join(root, run["cwd"]) if run["cwd"] != "." else root)
     R = lambda s: s.replace("@R", root)
     if run.get("srcdir"):
         files_base = _join(inv, R(run["srcdir"]["operand"]))
@@ -111,7 +120,6 @@ def walk(case, run, root, interp):
 
     w = Walk()
     w.contrib = collections.Counter()
-    w.routes = collections.defaultdict(list)
     w.log = []
     w.missing = []
     w.snapshot = None
@@ -122,25 +130,34 @@ def walk(case, run, root, interp):
     V = {}
     cnt = collections.Counter()
 
-    def candidates(site, found_path, phys):
+    def probe(path):
+        if os.path.isfile(path):
+            return path
+        if interp["lenient_dotdot"] and ".." in path.split("/"):
+            n = os.path.normpath(path)
+            if os.path.isfile(n):
+                return n
+        return None
+
+    def candidates(site, found_path, phys, full=False):
         op = R(site["operand"])
-        quote = site["form"] == "quote" or noangles
+        quote = site["form"] == "quote" or noangles or full
         c = []
         if quote:
-            c.append(("cwd", _join(wd, op), None))
-            incdir = os.path.dirname(found_path if interp["lex_incdir"] else phys)
-            c.append(("incdir", _join(incdir, op), None))
+            c.append(("cwd", wd, None))
+            c.append(("incdir", os.path.dirname(found_path if interp["lex_incdir"] else phys), None))
             for k, d, i in search:
-                c.append((k, _join(d, op), i))
+                c.append((k, d, i))
         else:
             for k, d, i in search:
                 if k == "S":
-                    c.append((k, _join(d, op), i))
-        return c
+                    c.append((k, d, i))
+        return [(k, d, _join(d, op), i) for k, d, i in c]
 
     w.candidates = candidates
+    w.probe = probe
 
-    def include(found_path, route, depth):
+    def include(found_path, depth):
         if depth > 12:
             w.unknown = True
             return
@@ -153,42 +170,44 @@ def walk(case, run, root, interp):
             return
         seen.add(phys)
         w.contrib[u["id"]] += 1
-        w.routes[u["id"]].append(route)
         cnt[u["name"]] += 1
         V[u["name"]] = u["id"] + 1
         for si, site in enumerate(u["sites"]):
             hit = None
-            cands = candidates(site, found_path, phys)
-            for k, path, idx in cands:
-                if os.path.isfile(path):
-                    hit = (k, path, idx)
+            for k, d, path, idx in candidates(site, found_path, phys):
+                f = probe(path)
+                if f:
+                    hit = (k, f, idx, d)
                     break
             tu = units_by_phys.get(os.path.realpath(hit[1])) if hit else None
             w.log.append(dict(includer=u["id"], site=si, name=site["name"], kind=hit[0] if hit else None,
                               sidx=hit[2] if hit else None, unit=tu["id"] if tu else None,
-                              path=found_path, phys=phys))
+                              base=hit[3] if hit else None, path=found_path, phys=phys))
             if hit is None:
                 w.missing.append((u["id"], si))
             else:
-                include(hit[1], hit[0], depth + 1)
+                include(hit[1], depth + 1)
         if u["kind"] == "main":
             w.snapshot = {n: (V.get(n, 0), 1 if cnt[n] >= 2 else 0) for n in case["names"]}
 
+    paths = []
     for f in run["files"]:
-        path = _join(files_base, R(f["operand"]))
-        if not os.path.isfile(path):
+        path = probe(_join(files_base, R(f["operand"])))
+        if path is None:
             w.unknown = True
             continue
+        paths.append(path)
         w.named.add(os.path.realpath(path))
-    for f in run["files"]:
-        path = _join(files_base, R(f["operand"]))
-        if os.path.isfile(path):
-            include(path, "cmdline", 0)
+    for path in paths:
+        include(path, 0)
     return w
 
 
 def ownership(case, w, root):
-    """unit id -> 'must' | 'mustnot' | None (unspecified), for units that contribute under this walk"""
+    """unit id -> 'must' | 'mustnot' | None (unspecified), for units that contribute under this walk.
+    'Found in the working directory' is taken as classified only where both readings agree (found by the
+    working-directory step AND residing in it / neither); a unit is judged only when every #include site of
+    its name resolves to it, so that the route by which it first arrived is unambiguous."""
     out = {}
     wdp = os.path.realpath(w.wd)
     for u in case["units"]:
@@ -197,16 +216,63 @@ def ownership(case, w, root):
             continue
         phys = os.path.realpath(os.path.join(root, u["path"]))
         in_wd = os.path.dirname(phys) == wdp
-        routes = w.routes[uid]
+        ents = [e for e in w.log if e["name"] == u["name"]]
+        kinds = sorted({e["kind"] or "none" for e in ents})
+        clean = all(e["unit"] == uid for e in ents)
         if phys in w.named:
-            out[uid] = "must"
-        elif all(r == "cwd" for r in routes) and in_wd:
-            out[uid] = "must"
-        elif all(r != "cwd" for r in routes) and not in_wd:
-            out[uid] = "mustnot"
+            out[uid] = ("must", ["cmdline"] + kinds)
+        elif not clean or not ents:
+            out[uid] = (None, kinds)
+        elif all(k == "cwd" for k in kinds) and in_wd:
+            out[uid] = ("must", kinds)
+        elif all(k != "cwd" for k in kinds) and not in_wd:
+            out[uid] = ("mustnot", kinds)
         else:
-            out[uid] = None
+            out[uid] = (None, kinds)
     return out
+
+
+# ---------------------------------------------------------------------------------------------
+# spelling classes (computed from the strings of a -- minimised -- case, not from generator labels)
+# ---------------------------------------------------------------------------------------------
+
+def _symlink_names(case):
+    dirs, files = set(), set()
+    for path, target in case["symlinks"]:
+        (files if target.endswith(".h") else dirs).add(os.path.basename(path))
+    return dirs, files
+
+
+def _class_path(case, op, is_file=True):
+    """spelling class of a path operand; 'plain' covers plain names, sub-directories and leading '..'"""
+    sdirs, sfiles = _symlink_names(case)
+    body = op[2:] if op.startswith("@R") else op
+    comps = body.split("/")
+    cls = []
+    if "//" in body.rstrip("/") or (body.endswith("//")):
+        cls.append("dslash")
+    inner = comps[:-1] if is_file else comps
+    names_seen = False
+    for i, c in enumerate(comps):
+        if c == "..":
+            if names_seen:
+                prev = [x for x in comps[:i] if x not in ("", ".", "..")]
+                cls.append("symup" if prev and prev[-1] in sdirs else "subdotdot")
+        elif c not in ("", "."):
+            names_seen = True
+    if "." in inner[1:] or (inner[:1] == ["."]) or (not is_file and comps[-1:] == ["."]):
+        cls.append("dot")
+    if any(c in sdirs for c in inner):
+        cls.append("symdir")
+    if is_file and comps[-1] in sfiles:
+        cls.append("symfile")
+    if not is_file and body.endswith("/") and "dslash" not in cls:
+        cls.append("trail")
+    if "symup" in cls and "symdir" in cls:
+        cls.remove("symdir")
+    if "dslash" in cls and "dot" in cls:
+        cls.remove("dot")
+    return "+".join(sorted(set(cls))) or "plain"
 
 
 # ---------------------------------------------------------------------------------------------
@@ -272,7 +338,7 @@ def _matches(run, obs, w):
 
 
 def _name_diffs(case, run, obs, w):
-    """names whose observation differs from walk w -> description"""
+    """names whose observation differs from walk w"""
     diffs = []
     unit = {u["id"]: u for u in case["units"]}
     es, os_ = w.snapshot or {}, obs["snapshot"] or {}
@@ -287,194 +353,224 @@ def _name_diffs(case, run, obs, w):
     return diffs
 
 
-def _interps_for(run):
-    if run.get("srcdir"):
-        return INTERPS
-    return [i for i in INTERPS if i["wd_srcdir"] and not i["search_srcdir"]]
-
-
-def _spell_of_dir(run, idx):
-    return run["search"][idx]["spell"] if idx is not None else "-"
-
-
 def judge_run(case, run, root, out):
-    """-> (violations [(key, detail)], features set, counters dict, inconclusive or None)"""
+    """-> (violations [dict], features set, counters, inconclusive-or-None).  A violation dict has
+    cat, sites [(unit id, site index)], units [unit id], effect (dict of strings), detail."""
     viol, feats, counters = [], set(), collections.Counter()
     obs = _observe(case, run, root, out)
     tool = run["tool"]
     walks = [(i, walk(case, run, root, i)) for i in _interps_for(run)]
-    if any(w.unknown for _, w in walks):
+    if all(w.unknown for _, w in walks):
         return viol, feats, counters, "generator produced a tree the reference cannot classify"
+    walks = [(i, w) for i, w in walks if not w.unknown]
     primary = walks[0][1]
     unit = {u["id"]: u for u in case["units"]}
     counters["tool_runs"] += 1
     if obs["how"] == "timeout":
         return viol, feats, counters, "timeout"
     if obs["how"] != "exit:0":
-        # the statement promises that an unfindable file is skipped; every generated command line names
-        # existing files only, so any other ending is a failure to do what the statement says
-        sig = obs["how"]
-        if sig.startswith("exit:"):
-            m = re.findall(r"(?m)^.*(?:error|Error).*$", obs["err"])
-            kind = "error" if m else "exit"
-            msg = re.sub(r"\S*/", "", m[0])[:60] if m else ""
-            msg = re.sub(r"[0-9]+", "N", msg)
-            msg = re.sub(r"(mk|Own|h|main|Probe|pv|pt)_?[A-Za-z0-9_]*", "ID", msg)
-            sig = "%s,%s:%s" % (obs["how"], kind, msg.strip())
-        nm = len(primary.missing)
-        viol.append(("tool-failed:tool=%s,missing=%s,how=%s" % (tool, "yes" if nm else "no", sig),
-                     dict(argv=obs["argv"], stderr=obs["err"][-1500:])))
+        # every generated command line names existing files only and the statement promises that an
+        # unfindable #include is skipped, so any other ending contradicts it
+        dm = re.search(r"error: class Own_([a-z0-9]+)_(\d+) has conflicting definition", obs["err"])
+        if dm and int(dm.group(2)) in unit and primary.contrib.get(int(dm.group(2)), 0) <= 1:
+            # the marker class was seen twice: the file contributed twice
+            name = dm.group(1)
+            us = [u for u in case["units"] if u["name"] == name]
+            all_sites = [(u["id"], si) for u in case["units"] for si, st in enumerate(u["sites"]) if st["name"] == name]
+            viol.append(dict(cat="included-twice", sites=all_sites, units=[u["id"] for u in us],
+                             effect=dict(protect=unit[int(dm.group(2))]["protect"]),
+                             detail=dict(argv=obs["argv"], cwd=run["cwd"], name=name, stderr=obs["err"][-900:])))
+            return viol, feats, counters, None
+        m = re.findall(r"(?m)^.*(?:rror|nable|failed).*$", obs["err"])
+        msg = re.sub(r"\S*/\S*", "PATH", m[0])[:50] if m else ""
+        msg = re.sub(r"[0-9]+", "N", msg)
+        msg = re.sub(r"'[^']*'", "Q", msg)
+        msg = re.sub(r"\b(mk|Own|Probe|pv|pt|main|h)_?[A-Za-z0-9_.]*", "ID", msg).strip().replace(" ", "-")
+        viol.append(dict(cat="tool-failed", sites=[], units=[], effect=dict(how=obs["how"], msg=msg),
+                         detail=dict(argv=obs["argv"], cwd=run["cwd"], stderr=obs["err"][-1500:])))
         return viol, feats, counters, None
 
     matching = [(i, w) for i, w in walks if _matches(run, obs, w)]
-    counters["sites_resolved"] += len(primary.log)
-    for e in primary.log:
-        s = unit[e["includer"]]["sites"][e["site"]]
-        form = s["form"] + ("+noangles" if run["noangles"] and s["form"] == "angle" else "")
-        feats.add("resolve:%s:%s:%s:%s:%s" % (tool, form, s["spell"], e["kind"] or "none",
-                                             "nested" if unit[e["includer"]]["kind"] != "main" else "main"))
-        if e["sidx"] is not None:
-            feats.add("searchdir:%s:%s:%s" % (tool, run["search"][e["sidx"]]["kind"], run["search"][e["sidx"]]["spell"]))
-    for f in run["files"]:
-        feats.add("cmdfile:%s:%s" % (tool, f["spell"]))
-    if run.get("srcdir"):
-        feats.add("srcdir:%s" % run["srcdir"]["spell"])
-    if run["opts_after_files"]:
-        feats.add("opts-after-files:%s" % tool)
 
     if not matching:
-        # closest interpretation names the site
+        # the closest interpretation names the site
         best = min(walks, key=lambda iw: len(_name_diffs(case, run, obs, iw[1])))
         w = best[1]
-        diffs = _name_diffs(case, run, obs, w)
-        d = diffs[0]
+        d = _name_diffs(case, run, obs, w)[0]
         name = d["name"]
-        sites = [e for e in w.log if e["name"] == name]
-        all_sites = [(u, s) for u in case["units"] for s in u["sites"] if s["name"] == name]
-        if run["tool"] == "parse_file":
-            twice = any(v > d["exp_m"].get(k, 0) and k in d["exp_m"] for k, v in d["got_m"].items()) \
+        ents = [e for e in w.log if e["name"] == name]
+        all_sites = [(u["id"], si) for u in case["units"] for si, s in enumerate(u["sites"]) if s["name"] == name]
+        if tool == "parse_file":
+            twice = any(k in d["exp_m"] and v > d["exp_m"][k] for k, v in d["got_m"].items()) \
                 or (d["got_t"] == 1 and d["exp_t"] == 0 and set(d["got_m"]) == set(d["exp_m"]))
         else:
             twice = d["got_t"] == 1 and d["exp_t"] == 0 and d["got_v"] == d["exp_v"]
+        detail = dict(argv=obs["argv"], cwd=run["cwd"], name=name, diff=_short(d), stderr=obs["err"][-600:])
         if twice:
             us = [u for u in case["units"] if u["name"] == name]
-            spells = sorted({s["spell"] for _, s in all_sites} | {("cmd:" + f["spell"]) for f in run["files"]
-                                                                 if unit[f["unit"]]["name"] == name})
-            key = "included-twice:tool=%s,protect=%s,spellings=%s" % (tool, us[0]["protect"] if us else "?", "+".join(spells))
+            viol.append(dict(cat="included-twice", sites=all_sites, units=[u["id"] for u in us],
+                             effect=dict(protect=us[0]["protect"] if us else "?"), detail=detail))
+            return viol, feats, counters, None
+        if tool == "parse_file" and set(d["got_m"]) != set(d["exp_m"]):
+            got_units = sorted(set(d["got_m"]) - set(d["exp_m"]))
+            got_unit = got_units[0] if got_units else None
         else:
-            # which file did the tool take, and which step of the stated order would have produced it?
-            if run["tool"] == "parse_file":
-                got_units = sorted(set(d["got_m"]) - set(d["exp_m"])) or sorted(d["got_m"])
-                got_unit = got_units[0] if d["got_m"] else None
-                if set(d["got_m"]) == set(d["exp_m"]):
-                    got_unit = d["got_v"] - 1 if d["got_v"] else None
-            else:
-                got_unit = d["got_v"] - 1 if d["got_v"] else None
-            site_e = sites[0] if sites else None
-            exp_kind, got_kind, dsp, form, spell, nested = "none", "none", "-", "?", "?", "?"
-            if site_e is None and all_sites:
-                # the site was never reached in the reference walk (its includer was not included)
-                u0, s0 = all_sites[0]
-                form, spell = s0["form"], s0["spell"]
-                exp_kind = "unreached"
-                got_kind = "some" if got_unit is not None else "none"
-            elif site_e is not None:
-                inc = unit[site_e["includer"]]
-                s0 = inc["sites"][site_e["site"]]
-                form, spell = s0["form"], s0["spell"]
-                nested = "nested" if inc["kind"] != "main" else "main"
-                exp_kind = site_e["kind"] or "none"
-                if site_e["sidx"] is not None:
-                    dsp = _spell_of_dir(run, site_e["sidx"])
-                if got_unit is not None and got_unit in unit:
-                    gp = os.path.realpath(os.path.join(root, unit[got_unit]["path"]))
-                    got_kind = "other"
-                    # candidates of the *full* quote order, so that e.g. an angle include satisfied from
-                    # the working directory is named as such
-                    s_q = dict(s0, form="quote")
-                    for k, path, idx in w.candidates(s_q, site_e["path"], site_e["phys"]):
-                        if os.path.isfile(path) and os.path.realpath(path) == gp:
-                            got_kind = k
-                            if idx is not None and dsp == "-":
-                                dsp = _spell_of_dir(run, idx)
-                            break
-            if run["noangles"] and form == "angle":
+            got_unit = d["got_v"] - 1 if d["got_v"] else None
+            if got_unit is not None and got_unit + 1 == d["exp_v"]:
+                got_unit = None
+        # first site of that name whose expected target differs from what was taken
+        ent = None
+        for e in ents:
+            if e["unit"] != got_unit or got_unit is None:
+                ent = e
+                break
+        effect = dict(form="?", expected="none", got="none", nS="")
+        sites = all_sites
+        if ent is None:
+            effect["expected"] = "unreached"
+            effect["got"] = "some" if got_unit is not None else "none"
+            if all_sites:
+                effect["form"] = unit[all_sites[0][0]]["sites"][all_sites[0][1]]["form"]
+        else:
+            s0 = unit[ent["includer"]]["sites"][ent["site"]]
+            sites = [(ent["includer"], ent["site"])]
+            form = s0["form"]
+            effect["expected"] = ent["kind"] or "none"
+            if got_unit is not None and got_unit in unit:
+                gp = os.path.realpath(os.path.join(root, unit[got_unit]["path"]))
+                effect["got"] = "other"
+                for k, dd, path, idx in w.candidates(s0, ent["path"], ent["phys"], full=True):
+                    f = w.probe(path) or (os.path.normpath(path) if os.path.isfile(os.path.normpath(path)) else None)
+                    if f and os.path.realpath(f) == gp:
+                        effect["got"] = k
+                        break
+            if form == "angle" and run["noangles"]:
                 form = "angle+noangles"
-            key = "wrong-file:tool=%s,form=%s,spell=%s,incl=%s,expected=%s,got=%s,dirspell=%s" % (
-                tool, form, spell, nested, exp_kind, got_kind, dsp)
-            if run["tool"] == "interrogate" or True:
-                ns = sum(1 for s in run["search"] if s["kind"] == "S")
-                if form.startswith("angle") and exp_kind == "none":
-                    key += ",nS=%s" % ("0" if ns == 0 else "some")
-            if run.get("srcdir"):
-                key += ",srcdir=%s" % run["srcdir"]["spell"]
-            if "incdir" in (exp_kind, got_kind) and nested == "main":
-                key += ",filespell=%s" % run["files"][0]["spell"]
-        viol.append((key, dict(argv=obs["argv"], cwd=run["cwd"], name=name, diff=_short(d), stderr=obs["err"][-600:])))
+            effect["form"] = form
+            if form == "angle" and effect["expected"] == "none":
+                effect["nS"] = "0" if not any(s["kind"] == "S" for s in run["search"]) else "some"
+        viol.append(dict(cat="wrong-file", sites=sites, units=[], effect=effect, detail=detail))
         return viol, feats, counters, None
 
+    # ---- the run matches the reference: record what was exercised ------------------------------
     counters["runs_matching_reference"] += 1
-    # --- missing files: warning + exit status (exit status already known to be 0) -------------
-    miss_sets = [set(w.missing) for _, w in matching]
-    missing = set.intersection(*miss_sets) if miss_sets else set()
+    w0 = matching[0][1]
+    counters["sites_resolved"] += len(w0.log)
+    for e in w0.log:
+        s = unit[e["includer"]]["sites"][e["site"]]
+        form = s["form"] + ("+noangles" if run["noangles"] and s["form"] == "angle" else "")
+        feats.add("resolve:%s:%s:%s:%s:%s" % (tool, form, _class_path(case, s["operand"]), e["kind"] or "none",
+                                             "nested" if unit[e["includer"]]["kind"] != "main" else "main"))
+        if e["sidx"] is not None:
+            sd = run["search"][e["sidx"]]
+            feats.add("searchdir:%s:%s:%s" % (tool, sd["kind"], _class_path(case, sd["operand"], False)))
+    for f in run["files"]:
+        feats.add("cmdfile:%s:%s" % (tool, _class_path(case, f["operand"])))
+    if run.get("srcdir"):
+        feats.add("srcdir:%s" % _class_path(case, run["srcdir"]["operand"], False))
+    if run["opts_after_files"]:
+        feats.add("opts-after-files:%s" % tool)
+    if len(run["search"]) >= 2:
+        feats.add("search-order:%s:%s" % (tool, "".join(s["kind"] for s in run["search"])))
+
+    # ---- missing files: warning (exit status is already known to be 0) --------------------------
+    missing = set.intersection(*[set(w.missing) for _, w in matching])
     for uid, si in sorted(missing):
         s = unit[uid]["sites"][si]
-        feats.add("missing:%s:%s:%s" % (tool, s["form"], s["spell"]))
+        feats.add("missing:%s:%s:%s" % (tool, s["form"], _class_path(case, s["operand"])))
         counters["missing_sites"] += 1
         if run["verbose"]:
             base = os.path.basename(s["operand"])
             lines = obs["err"].splitlines()
-            ok = False
-            for i, ln in enumerate(lines):
-                if "warning" in ln.lower() and any(base in x for x in lines[i:i + 3]):
-                    ok = True
-                    break
+            ok = any("warning" in ln.lower() and any(base in x for x in lines[i:i + 3]) for i, ln in enumerate(lines))
             if not ok:
-                viol.append(("missing-no-warning:tool=%s,form=%s" % (tool, s["form"]),
-                             dict(argv=obs["argv"], operand=s["operand"], stderr=obs["err"][-600:])))
-    # --- once-only, positive evidence -----------------------------------------------------------
-    for _, w in matching[:1]:
-        for u in case["units"]:
-            if u["protect"] != "none" and w.contrib.get(u["id"]):
-                n_sites = sum(1 for e in w.log if e["unit"] == u["id"]) + \
-                    sum(1 for f in run["files"] if f["unit"] == u["id"])
-                if n_sites >= 2:
-                    sp = sorted({unit[e["includer"]]["sites"][e["site"]]["spell"] for e in w.log if e["unit"] == u["id"]})
-                    feats.add("once:%s:%s:%s" % (tool, u["protect"], "+".join(sp)))
-                    counters["once_only_files_reached_repeatedly"] += 1
-    # --- ownership (interrogate only) -----------------------------------------------------------
+                viol.append(dict(cat="missing-no-warning", sites=[(uid, si)], units=[], effect=dict(form=s["form"]),
+                                 detail=dict(argv=obs["argv"], cwd=run["cwd"], operand=s["operand"], stderr=obs["err"][-600:])))
+                break
+    # ---- once-only, positive evidence ------------------------------------------------------------
+    for u in case["units"]:
+        if u["protect"] != "none" and w0.contrib.get(u["id"]):
+            reach = [e for e in w0.log if e["unit"] == u["id"]]
+            n_reach = len(reach) + sum(1 for f in run["files"] if f["unit"] == u["id"])
+            if n_reach >= 2:
+                sp = sorted({_class_path(case, unit[e["includer"]]["sites"][e["site"]]["operand"]) for e in reach})
+                feats.add("once:%s:%s:%s" % (tool, u["protect"], "+".join(sp)))
+                counters["once_only_files_reached_repeatedly"] += 1
+    # ---- ownership (interrogate only) ------------------------------------------------------------
     if tool == "interrogate" and obs["own"] is not None:
         owns = [ownership(case, w, root) for _, w in matching]
         for uid in sorted(owns[0]):
-            classes = {o.get(uid, "absent") for o in owns}
-            routes = sorted({r for _, w in matching for r in w.routes.get(uid, [])})
-            if len(classes) != 1 or None in classes or "absent" in classes:
+            cl = {o.get(uid, ("absent", []))[0] for o in owns}
+            kinds = owns[0][uid][1]
+            if len(cl) != 1 or None in cl or "absent" in cl:
                 counters["ownership_unspecified"] += 1
                 continue
-            cls = classes.pop()
-            named = os.path.realpath(os.path.join(root, unit[uid]["path"])) in matching[0][1].named
-            fsp = "-"
-            for f in run["files"]:
-                if f["unit"] == uid:
-                    fsp = f["spell"]
-            feats.add("own:%s:%s:%s" % (cls, "+".join(routes), fsp if named else "-"))
+            cls = cl.pop()
+            feats.add("own:%s:%s" % (cls, "+".join(kinds)))
             counters["ownership_facts"] += 1
             have = uid in obs["own"]
+            sites = [(e["includer"], e["site"]) for e in w0.log if e["unit"] == uid]
             if cls == "must" and not have:
-                viol.append(("not-owned:named=%s,first=%s,filespell=%s" % ("cmdline" if named else "no", routes[0], fsp),
-                             dict(argv=obs["argv"], unit=unit[uid]["path"], routes=routes)))
+                viol.append(dict(cat="not-owned", sites=sites, units=[uid], effect=dict(route="+".join(kinds)),
+                                 detail=dict(argv=obs["argv"], cwd=run["cwd"], unit=unit[uid]["path"], routes=kinds)))
             elif cls == "mustnot" and have:
-                dsp = "-"
-                for e in matching[0][1].log:
-                    if e["unit"] == uid and e["sidx"] is not None:
-                        dsp = _spell_of_dir(run, e["sidx"])
-                viol.append(("owned-wrongly:route=%s,dirspell=%s" % ("+".join(routes), dsp),
-                             dict(argv=obs["argv"], unit=unit[uid]["path"], routes=routes)))
+                viol.append(dict(cat="owned-wrongly", sites=sites, units=[uid], effect=dict(route="+".join(kinds)),
+                                 detail=dict(argv=obs["argv"], cwd=run["cwd"], unit=unit[uid]["path"], routes=kinds)))
     return viol, feats, counters, None
 
 
 def _short(d):
     return {k: (dict(v) if isinstance(v, dict) else v) for k, v in d.items()}
+
+
+BENIGN = ("plain",)
+
+
+def _key(case, run, v):
+    """key of a violation on a (minimised) single-run case: what is left of the hazardous spellings is the
+    cause; without any, the effect (form, expected step, step taken) is the signature."""
+    tool = run["tool"]
+    unit = {u["id"]: u for u in case["units"]}
+    causes = set()
+    vsites = v["sites"]
+    if v["cat"] == "tool-failed":
+        vsites = [(u["id"], si) for u in case["units"] for si in range(len(u["sites"]))]
+    for uid, si in vsites:
+        if uid in unit and si < len(unit[uid]["sites"]):
+            c = _class_path(case, unit[uid]["sites"][si]["operand"])
+            if c not in BENIGN:
+                causes.add("operand:" + c)
+    for s in run["search"]:
+        c = _class_path(case, s["operand"], False)
+        if c not in BENIGN:
+            causes.add("dir:" + c)
+    for f in run["files"]:
+        c = _class_path(case, f["operand"])
+        if c not in BENIGN:
+            causes.add("file:" + c)
+    if run.get("srcdir"):
+        causes.add("srcdir:" + _class_path(case, run["srcdir"]["operand"], False))
+    causes = sorted(causes)
+    symup = [c for c in causes if "symup" in c]
+    if symup:
+        return "lexical-dotdot-across-symlink:tool=%s,where=%s" % (tool, "+".join(sorted({c.split(":")[0] for c in symup})))
+    e = v["effect"]
+    if v["cat"] == "wrong-file":
+        if causes:
+            return "wrong-file:tool=%s,cause=%s" % (tool, "+".join(causes))
+        k = "wrong-file:tool=%s,form=%s,expected=%s,got=%s" % (tool, e["form"], e["expected"], e["got"])
+        if e.get("nS"):
+            k += ",nS=" + e["nS"]
+        return k
+    if v["cat"] == "tool-failed":
+        return "tool-failed:tool=%s,how=%s,msg=%s,cause=%s" % (tool, e["how"], e["msg"], "+".join(causes) or "-")
+    if v["cat"] == "included-twice":
+        return "included-twice:tool=%s,protect=%s,cause=%s" % (tool, e["protect"], "+".join(causes) or "-")
+    if v["cat"] == "missing-no-warning":
+        if causes:
+            return "missing-no-warning:tool=%s,cause=%s" % (tool, "+".join(causes))
+        return "missing-no-warning:tool=%s,form=%s" % (tool, e["form"])
+    return "%s:route=%s,cause=%s" % (v["cat"], e["route"], "+".join(causes) or "-")
 
 
 def _run_tree_once(ctx, case, tag):
@@ -486,15 +582,21 @@ def _run_tree_once(ctx, case, tag):
     treegen.materialise(case, root)
     res = []
     try:
-        for ri, run in enumerate(case["runs"]):
+        for run in case["runs"]:
             res.append(judge_run(case, run, root, out))
     finally:
         shutil.rmtree(d, ignore_errors=True)
     return res
 
 
+# -- reductions ---------------------------------------------------------------------------------
+
+def _copy(c):
+    return json.loads(json.dumps(c))
+
+
 def _drop_name(case, name):
-    c = json.loads(json.dumps(case))
+    c = _copy(case)
     cmd_units = {f["unit"] for r in c["runs"] for f in r["files"]}
     c["units"] = [u for u in c["units"] if u["name"] != name or u["id"] in cmd_units]
     for u in c["units"]:
@@ -504,74 +606,315 @@ def _drop_name(case, name):
     return c
 
 
-def _drop_search(case, idx):
-    c = json.loads(json.dumps(case))
-    run = c["runs"][0]
-    toks = run["search"][idx]["tokens"]
-    av = run["argv"]
+def _remove_tokens(av, toks):
     for i in range(len(av) - len(toks) + 1):
         if av[i:i + len(toks)] == toks:
             del av[i:i + len(toks)]
-            break
-    else:
-        return None
-    del run["search"][idx]
-    return c
+            return True
+    return False
 
 
-def _minimise(ctx, case, ri, key):
-    """greedy reduction of a violating tree: one run, then drop names / search dirs / symlinks while the
-    same key is reported"""
-    budget = [14]
+def _reductions(case, v=None):
+    """candidate one-step simplifications of a single-run case, most drastic first"""
+    run = case["runs"][0]
+    unit = {u["id"]: u for u in case["units"]}
+    # -- bulk steps first: they usually succeed and save most of the single steps
+    if v is not None and v["sites"]:
+        keep = {unit[uid]["sites"][si]["name"] for uid, si in v["sites"] if uid in unit and si < len(unit[uid]["sites"])}
+        keep |= {unit[uid]["name"] for uid, _ in v["sites"] if uid in unit}
+        grew = True
+        while grew:
+            grew = False
+            for u in case["units"]:
+                if u["name"] not in keep and any(st["name"] in keep for st in u["sites"]):
+                    keep.add(u["name"])
+                    grew = True
+        drop = [n for n in case["names"] if n not in keep and not n.startswith("main")]
+        if drop:
+            def f(drop=drop):
+                c = case
+                for n in drop:
+                    c = _drop_name(c, n)
+                return c
+            yield "bulk:names", f
+    if len(run["search"]) > 1:
+        def f():
+            c = _copy(case)
+            r = c["runs"][0]
+            for sd in r["search"]:
+                if not _remove_tokens(r["argv"], sd["tokens"]):
+                    return None
+            r["search"] = []
+            return c
+        yield "bulk:search", f
+    used = set()
+    for u in case["units"]:
+        for st in u["sites"]:
+            used.update(st["operand"].split("/"))
+    for sd in run["search"]:
+        used.update(sd["operand"].split("/"))
+    for fl in run["files"]:
+        used.update(fl["operand"].split("/"))
+    if run.get("srcdir"):
+        used.update(run["srcdir"]["operand"].split("/"))
+    free = [x for x in case["symlinks"] if os.path.basename(x[0]) not in used]
+    if len(free) > 1:
+        yield "bulk:symlinks", lambda: dict(_copy(case), symlinks=[x for x in case["symlinks"] if x not in free])
+    if True:
+        def f():
+            c = _copy(case)
+            r = c["runs"][0]
+            ch = False
+            for sd in r["search"]:
+                new = ["-" + sd["kind"], "@R/" + sd["dir"]]
+                if sd["tokens"] == new:
+                    continue
+                av = r["argv"]
+                for j in range(len(av) - len(sd["tokens"]) + 1):
+                    if av[j:j + len(sd["tokens"])] == sd["tokens"]:
+                        av[j:j + len(sd["tokens"])] = new
+                        break
+                else:
+                    return None
+                sd["tokens"], sd["operand"], sd["spell"] = new, "@R/" + sd["dir"], "abs"
+                ch = True
+            for fl in r["files"]:
+                target = "@R/" + unit[fl["unit"]]["path"]
+                if fl["operand"] != target and fl["operand"] in r["argv"]:
+                    r["argv"][r["argv"].index(fl["operand"])] = target
+                    fl["operand"], fl["spell"] = target, "f-abs"
+                    ch = True
+            if r.get("srcdir") and r["srcdir"]["operand"] != "@R/" + r["srcdir"]["dir"] and r["srcdir"]["operand"] in r["argv"]:
+                r["argv"][r["argv"].index(r["srcdir"]["operand"])] = "@R/" + r["srcdir"]["dir"]
+                r["srcdir"]["operand"], r["srcdir"]["spell"] = "@R/" + r["srcdir"]["dir"], "abs"
+                ch = True
+            return c if ch else None
+        yield "bulk:respell", f
+    for n in case["names"]:
+        if not n.startswith("main"):
+            yield "name:" + n, lambda n=n: _drop_name(case, n)
+    for u in case["units"]:
+        for si in range(len(u["sites"])):
+            def f(uid=u["id"], si=si):
+                c = _copy(case)
+                for x in c["units"]:
+                    if x["id"] == uid:
+                        del x["sites"][si]
+                return c
+            yield "site:%d.%d" % (u["id"], si), f
+    for i in range(len(run["search"])):
+        def f(i=i):
+            c = _copy(case)
+            r = c["runs"][0]
+            if not _remove_tokens(r["argv"], r["search"][i]["tokens"]):
+                return None
+            del r["search"][i]
+            return c
+        yield "search:%d" % i, f
+    if len(run["files"]) > 1:
+        for i, fl in enumerate(run["files"]):
+            if unit[fl["unit"]]["kind"] != "main":
+                def f(i=i):
+                    c = _copy(case)
+                    r = c["runs"][0]
+                    if not _remove_tokens(r["argv"], [r["files"][i]["operand"]]):
+                        return None
+                    del r["files"][i]
+                    return c
+                yield "file:%d" % i, f
+    if run["noangles"]:
+        def f():
+            c = _copy(case)
+            r = c["runs"][0]
+            _remove_tokens(r["argv"], ["-noangles"])
+            r["noangles"] = False
+            return c
+        yield "noangles", f
+    if run.get("srcdir"):
+        def f():
+            c = _copy(case)
+            r = c["runs"][0]
+            if not _remove_tokens(r["argv"], ["-srcdir", r["srcdir"]["operand"]]):
+                return None
+            # relative -I/-S operands were relative to the old start directory: make them absolute first
+            for s in r["search"]:
+                if not s["operand"].startswith("@R"):
+                    return None
+            r["cwd"] = r["srcdir"]["dir"]
+            r["srcdir"] = None
+            return c
+        yield "srcdir", f
+    for i, s in enumerate(run["search"]):
+        if s["operand"] != "@R/" + s["dir"]:
+            def f(i=i):
+                c = _copy(case)
+                r = c["runs"][0]
+                s = r["search"][i]
+                new = ["-" + s["kind"], "@R/" + s["dir"]]
+                av = r["argv"]
+                for j in range(len(av) - len(s["tokens"]) + 1):
+                    if av[j:j + len(s["tokens"])] == s["tokens"]:
+                        av[j:j + len(s["tokens"])] = new
+                        break
+                else:
+                    return None
+                s["tokens"], s["operand"], s["spell"] = new, "@R/" + s["dir"], "abs"
+                return c
+            yield "respell-search:%d" % i, f
+    for i, fl in enumerate(run["files"]):
+        target = "@R/" + unit[fl["unit"]]["path"]
+        if fl["operand"] != target:
+            def f(i=i, target=target):
+                c = _copy(case)
+                r = c["runs"][0]
+                old = r["files"][i]["operand"]
+                if old not in r["argv"]:
+                    return None
+                r["argv"][r["argv"].index(old)] = target
+                r["files"][i]["operand"], r["files"][i]["spell"] = target, "f-abs"
+                return c
+            yield "respell-file:%d" % i, f
+    if run.get("srcdir") and run["srcdir"]["operand"] != "@R/" + run["srcdir"]["dir"]:
+        def f():
+            c = _copy(case)
+            r = c["runs"][0]
+            old = r["srcdir"]["operand"]
+            if old not in r["argv"]:
+                return None
+            r["argv"][r["argv"].index(old)] = "@R/" + r["srcdir"]["dir"]
+            r["srcdir"]["operand"], r["srcdir"]["spell"] = "@R/" + r["srcdir"]["dir"], "abs"
+            return c
+        yield "respell-srcdir", f
+    for path, target in free:
+        def f(path=path):
+            c = _copy(case)
+            c["symlinks"] = [x for x in c["symlinks"] if x[0] != path]
+            return c
+        yield "symlink:" + path, f
 
-    def still(c, tag):
+
+def _minimise(ctx, case, ri, cat):
+    """greedy reduction of a violating tree to a single run with as few names, sites, search directories,
+    symlinks and hazardous spellings as still show a violation of the same category"""
+    budget = [30]
+
+    def find(c):
         if budget[0] <= 0:
-            return False
+            return None
         budget[0] -= 1
         try:
-            rs = _run_tree_once(ctx, c, "min%d" % budget[0])
+            rs = _run_tree_once(ctx, c, "m%d" % budget[0])
         except Exception:
-            return False
-        return any(k == key for v, _, _, _ in rs for k, _ in v)
+            return None
+        for v in rs[0][0]:
+            if v["cat"] == cat:
+                return v
+        return None
 
-    cur = json.loads(json.dumps(case))
+    cur = _copy(case)
     cur["runs"] = [cur["runs"][ri]]
-    if not still(cur, "r"):
-        return case
-    for n in list(cur["names"]):
-        if n.startswith("main"):
-            continue
-        c = _drop_name(cur, n)
-        if still(c, n):
-            cur = c
-    i = 0
-    while i < len(cur["runs"][0]["search"]):
-        c = _drop_search(cur, i)
-        if c is not None and still(c, "s%d" % i):
-            cur = c
-        else:
-            i += 1
-    return cur
+    v = find(cur)
+    if v is None:
+        return None, None
+    progress = True
+    tried = set()
+    ops_round = 0
+    while progress and budget[0] > 0:
+        progress = False
+        for label, f in _reductions(cur, v):
+            if not label.startswith("bulk:") and ops_round == 0:
+                # the bulk steps are through: normalise the operands before the single steps
+                ops_round = 1
+                c = _normalise_operands(ctx, cur, v)
+                if c is not None:
+                    v2 = find(c)
+                    if v2 is not None:
+                        cur, v = c, v2
+                        progress = True
+                        break
+            if label in tried:
+                continue
+            tried.add(label)
+            c = f()
+            if c is None:
+                continue
+            v2 = find(c)
+            if v2 is not None:
+                cur, v = c, v2
+                progress = True
+                tried = {t for t in tried if t.startswith("name:") or t.startswith("bulk:")}
+                break
+        # operand normalisation of the sites involved, once nothing else can be dropped
+        if not progress:
+            c = _normalise_operands(ctx, cur, v)
+            if c is not None and ops_round < 2:
+                ops_round = 2
+                v2 = find(c)
+                if v2 is not None:
+                    cur, v = c, v2
+                    progress = True
+    return cur, v
+
+
+def _normalise_operands(ctx, case, v):
+    """rewrite the operands of the violating sites to the plain relative path from the first directory of the
+    (full) stated order under which the operand names a file to that physical file"""
+    d = ctx.casedir("%s-norm" % case["id"])
+    shutil.rmtree(d, ignore_errors=True)
+    root = os.path.join(d, "root")
+    try:
+        treegen.materialise(case, root)
+        run = case["runs"][0]
+        w = walk(case, run, root, _interps_for(run)[0])
+        c = _copy(case)
+        unit = {u["id"]: u for u in c["units"]}
+        changed = False
+        vs = v["sites"] or [(u["id"], si) for u in case["units"] for si in range(len(u["sites"]))]
+        for uid, si in vs:
+            if uid not in unit or si >= len(unit[uid]["sites"]):
+                continue
+            site = unit[uid]["sites"][si]
+            if _class_path(case, site["operand"]) in BENIGN:
+                continue
+            e = next((e for e in w.log if e["includer"] == uid and e["site"] == si), None)
+            if e is None:
+                continue
+            for k, base, path, idx in w.candidates(site, e["path"], e["phys"], full=True):
+                if not os.path.isfile(path) and os.path.isfile(os.path.normpath(path)):
+                    path = os.path.normpath(path)
+                if os.path.isfile(path):
+                    new = os.path.relpath(os.path.realpath(path), os.path.realpath(base))
+                    if new != site["operand"] and _class_path(case, new) in BENIGN:
+                        site["operand"] = new
+                        changed = True
+                    break
+        return c if changed else None
+    finally:
+        shutil.rmtree(d, ignore_errors=True)
 
 
 def run_tree(ctx, case):
     res = core.CaseResult()
     rs = _run_tree_once(ctx, case, "x")
-    first = True
     for ri, (viol, feats, counters, inc) in enumerate(rs):
         res.features |= feats
-        for k, v in counters.items():
-            res.count(k, v)
+        for k, n in counters.items():
+            res.count(k, n)
         if inc:
             res.inconclusive = inc
-        seen = set()
-        for key, detail in viol:
-            if key in seen:
+        done = set()
+        for v in viol:
+            if v["cat"] in done:
                 continue
-            seen.add(key)
-            if first and not case.get("no_minimise"):
-                first = False
-                detail["minimal_case"] = _minimise(ctx, case, ri, key)
+            done.add(v["cat"])
+            mc, mv = (None, None) if case.get("no_minimise") else _minimise(ctx, case, ri, v["cat"])
+            if mc is None:
+                mc, mv = dict(case, runs=[case["runs"][ri]]), v
+            key = _key(mc, mc["runs"][0], mv)
+            detail = dict(mv["detail"])
+            detail["effect"] = mv["effect"]
+            detail["run"] = ri
+            detail["minimal_case"] = mc if mc.get("units") != case.get("units") or len(case["runs"]) > 1 else "same as case"
             res.violation(key, **detail)
     res.count("trees", 1)
     if case["id"].endswith("0") or case["id"].endswith("5"):
@@ -648,25 +991,36 @@ def _fname_records(root, paths):
     return recs, crashes
 
 
+def _abs(cwd, p):
+    return p if p.startswith("/") else os.path.join(cwd, p)
+
+
+def _stat(cwd, p):
+    """(st_dev, st_ino) of what the kernel says p denotes, or None"""
+    try:
+        st = os.stat(_abs(cwd, p))
+    except OSError:
+        return None
+    return (st.st_dev, st.st_ino, st.st_mode)
+
+
 def _exists(cwd, p):
-    return os.path.exists(p if p.startswith("/") else os.path.join(cwd, p))
-
-
-def _real(cwd, p):
-    return os.path.realpath(p if p.startswith("/") else os.path.join(cwd, p))
+    return _stat(cwd, p) is not None
 
 
 def _judge_fname(root, rec, variant):
     """-> list of categories violated by one harness record"""
+    import stat as _st
     cwd = os.path.join(root, "a", "b")
     p, s1, s2, a1, a2, cr, c1, c2, cwdok = rec[:9]
     rel = rec[9:]
     out = []
-    ex = _exists(cwd, p)
+    sp = _stat(cwd, p)
+    ex = sp is not None
     sym = "-symlink" if variant == "symlink" else ""
 
     def same(q):
-        return q != "<EMPTY>" and _exists(cwd, q) and _real(cwd, q) == _real(cwd, p)
+        return q != "<EMPTY>" and _stat(cwd, q) == sp
 
     # standardize
     if s1 == "<EMPTY>":
@@ -674,7 +1028,7 @@ def _judge_fname(root, rec, variant):
             out.append("standardize-empty")
     else:
         if s2 != s1:
-            out.append("not-idempotent:fn=standardize")
+            out.append("not-idempotent:fn=standardize" + ("" if ex else ":exists=no"))
         if ex and not same(s1):
             out.append("denotation%s:fn=standardize" % sym)
     # make_absolute
@@ -684,7 +1038,7 @@ def _judge_fname(root, rec, variant):
         if not a1.startswith("/"):
             out.append("make_absolute-not-absolute")
         if a2 != a1:
-            out.append("not-idempotent:fn=make_absolute")
+            out.append("not-idempotent:fn=make_absolute" + ("" if ex else ":exists=no"))
         if ex and not same(a1):
             out.append("denotation%s:fn=make_absolute" % sym)
     # make_canonical
@@ -692,29 +1046,29 @@ def _judge_fname(root, rec, variant):
         out.append("make_canonical-empty")
     else:
         if c2 != c1:
-            out.append("not-idempotent:fn=make_canonical")
+            out.append("not-idempotent:fn=make_canonical" + ("" if ex else ":exists=no"))
         if ex:
-            if cr != "1":
-                out.append("make_canonical-fails-on-existing")
             if not same(c1):
                 out.append("denotation%s:fn=make_canonical" % sym)
-            elif os.path.isfile(_real(cwd, p)) and c1 != _real(cwd, p):
+            elif _st.S_ISREG(sp[2]) and c1 != os.path.realpath(_abs(cwd, p)):
+                # once-only inclusion rests on one canonical name per regular file
                 out.append("canonical-not-unique")
     if cwdok != "1":
         out.append("make_canonical-changes-cwd")
     # make_relative_to
     if p.startswith("/"):
         dirs = [d.replace("@R", root) for d in FN_DIRS]
+        np = _norm(p)
         for i, d in enumerate(dirs):
             for j, ab in enumerate(("backups", "nobackups")):
                 f = rel[2 * i + j]
-                ok, _, result = f.partition(":")
-                if ok != "1":
+                if not f.startswith("1:"):
                     continue
+                result = f[2:]
                 if result == "<EMPTY>":
                     out.append("relative-to-empty:%s" % ab)
                     continue
-                if _norm(d + "/" + result) != _norm(p):
+                if _norm(d + "/" + result) != np:
                     out.append("relative-to-wrong:%s" % ab)
                 elif result.startswith("/"):
                     out.append("relative-to-absolute:%s" % ab)
@@ -723,12 +1077,38 @@ def _judge_fname(root, rec, variant):
     return sorted(set(out))
 
 
-def _shape(p, root):
-    """abstract a (minimised) path string: scratch prefix -> R, names -> x"""
-    s = p
-    if s.startswith(root):
-        s = "R" + s[len(root):]
-    return "/".join("x" if c in ("a", "b") else c for c in s.split("/"))
+def _shape(p, root, cwd=None):
+    """abstract a (minimised) path string: scratch prefix -> R; a name becomes d / f / n according to whether
+    the prefix up to it is a directory, a regular file or nothing"""
+    pre, body, base = "", p, cwd
+    if p.startswith(root + "/"):
+        pre, body, base = "R/", p[len(root) + 1:], root
+    elif p.startswith("/"):
+        base = "/"
+    out = []
+    cur = base or "."
+    for c in body.split("/"):
+        if c in ("a", "b"):
+            cur = cur.rstrip("/") + "/" + c
+            out.append("d" if os.path.isdir(cur) else "f" if os.path.isfile(cur) else "n")
+        else:
+            if c:
+                cur = cur.rstrip("/") + "/" + c
+            out.append(c)
+    return pre + "/".join(out)
+
+
+def _drops(p, root):
+    """p with one component, or two adjacent components, removed"""
+    pre = root + "/" if p.startswith(root + "/") else ""
+    comps = p[len(pre):].split("/")
+    out = []
+    for k in (2, 1):
+        for i in range(len(comps) - k + 1):
+            c = "/".join(comps[:i] + comps[i + k:])
+            if c and (pre or c != p):
+                out.append(pre + c)
+    return out
 
 
 def _fname_paths(case, root):
@@ -759,6 +1139,7 @@ def run_fname(ctx, case):
         res.count("path_strings_evaluated", len(recs))
         cwd = os.path.join(root, "a", "b")
         failing = collections.defaultdict(list)    # category -> [path]
+        reported = set()
         for rec in recs:
             ex = _exists(cwd, rec[0])
             ncomp = rec[0][len(root) + 1:].count("/") + 1 if rec[0].startswith(root) else rec[0].count("/") + 1
@@ -771,58 +1152,53 @@ def run_fname(ctx, case):
                 failing[cat].append(rec[0])
         for p, r in crashes:
             key = "fname-crash:%s:%s" % (r.how(), "/".join(r.frames(2)))
-            res.violation(key, path=_shape(p, root), how=r.how(), stderr=r.err[-800:])
-        # lock-step minimisation: drop one component at a time while the category persists
+            res.violation(key, path=_shape(p, root, cwd), how=r.how(), stderr=r.err[-800:])
+        # lock-step minimisation: drop one component (or two adjacent ones) while the category persists
         for cat, ps in sorted(failing.items()):
             res.count("failing:" + cat, len(ps))
-            work = {p: p for p in ps[:400]}
-            for _ in range(8):
-                cands = {}
-                for orig, cur in work.items():
-                    pre = root + "/" if cur.startswith(root + "/") else ""
-                    comps = cur[len(pre):].split("/")
-                    for i in range(len(comps)):
-                        c = "/".join(comps[:i] + comps[i + 1:])
-                        if c:
-                            cands.setdefault(pre + c, []).append(orig)
+            work = {p: p for p in ps[:600]}
+            for _ in range(10):
+                cands = set()
+                for cur in set(work.values()):
+                    cands.update(_drops(cur, root))
                 if not cands:
                     break
                 crecs, _ = _fname_records(root, sorted(cands))
                 bad = {rec[0] for rec in crecs if cat in _judge_fname(root, rec, variant)}
                 changed = False
                 for orig, cur in list(work.items()):
-                    pre = root + "/" if cur.startswith(root + "/") else ""
-                    comps = cur[len(pre):].split("/")
-                    for i in range(len(comps)):
-                        c = pre + "/".join(comps[:i] + comps[i + 1:])
-                        if c in bad and c != pre:
+                    for c in _drops(cur, root):
+                        if c in bad:
                             work[orig] = c
                             changed = True
                             break
                 if not changed:
                     break
-            shapes = collections.Counter(_shape(m, root) for m in work.values())
+            shapes = collections.Counter(_shape(m, root, cwd) for m in work.values())
             for shape, n in sorted(shapes.items()):
-                if cat.startswith("denotation-symlink"):
-                    key = "lexical-dotdot-across-symlink:%s" % cat.split(":", 1)[1]
-                    if ".." not in shape:
-                        key = cat + ":shape=" + shape
+                if cat.startswith("denotation-symlink") and ".." in shape.split("/"):
+                    key = "lexical-dotdot-across-symlink:" + cat.split(":", 1)[1]
+                elif cat.endswith(":exists=no"):
+                    key = cat
                 else:
                     key = "%s:shape=%s" % (cat, shape)
-                ex = [o for o, m in work.items() if _shape(m, root) == shape][:3]
-                detail = dict(category=cat, minimal=shape, count=n, examples=[_shape(e, root) for e in ex],
-                              note="R = scratch tree root; harness cwd = R/a/b")
+                ex = [o for o, m in work.items() if _shape(m, root, cwd) == shape][:3]
+                detail = dict(category=cat, minimal=shape, count=n, examples=[_shape(e, root, cwd) for e in ex],
+                              note="R = scratch tree root; harness cwd = R/a/b; d/f/n = existing directory / regular "
+                                   "file / nonexistent name")
                 if cat == "standardize-empty":
-                    mm = next(m for m in work.values() if _shape(m, root) == shape)
+                    mm = next(m for m in work.values() if _shape(m, root, cwd) == shape)
                     r2 = core.run([_harness(HARNESS), "--twice-empty", cwd, mm], timeout=30)
                     detail["second_application"] = r2.how()
-                res.violation(key, **detail)
+                if key not in reported:
+                    reported.add(key)
+                    res.violation(key, **detail)
         if case["id"].endswith("-0"):
             res.sample = dict(id=case["id"], variant=variant, n=len(recs),
-                              first=[_shape(r[0], root) for r in recs[:4]],
+                              first=[_shape(r[0], root, cwd) for r in recs[:4]],
                               record=dict(zip(["p", "standardize", "standardize2", "make_absolute", "make_absolute2",
                                                "canonical_ok", "make_canonical", "make_canonical2"],
-                                              [_shape(x, root) for x in recs[min(7, len(recs) - 1)][:8]])) if recs else None)
+                                              [x.replace(root, 'R') for x in recs[min(7, len(recs) - 1)][:8]])) if recs else None)
     finally:
         shutil.rmtree(d, ignore_errors=True)
     return res
@@ -858,7 +1234,7 @@ def main(chk):
         "interrogate prints warnings only at verbosity >= 2 (-v); the missing-file warning is checked for parse_file and "
         "for interrogate runs with -v",
     ]
-    ntrees = chk.pick(220, 2400)
+    ntrees = chk.pick(160, 2000)
     cases = []
     for i in range(ntrees):
         sub = "%d.%d" % (chk.seed, i)
@@ -871,7 +1247,7 @@ def main(chk):
                           paths=dict(mode="exhaustive", maxlen=maxlen, chunk=k, nchunks=nchunks)))
     for k in range(chk.pick(2, 4)):
         cases.append(dict(kind="fname", id="fn-sample-%d" % k, variant="plain",
-                          paths=dict(mode="sample", seed="%d.%d" % (chk.seed, k), n=chk.pick(3200, 6000),
+                          paths=dict(mode="sample", seed="%d.%d" % (chk.seed, k), n=chk.pick(1500, 5000),
                                      minlen=maxlen + 1, maxlen=maxlen + 2)))
     for k in range(chk.pick(1, 4)):
         cases.append(dict(kind="fname", id="fn-symlink-%d" % k, variant="symlink",
